@@ -32,7 +32,8 @@ def _shallow_source(f, l, depth=0):
     """What a temporary was computed from, following only plain moves: ('field', base local, field name) |
     ('bin', op, [sources]) | ('other', kind)."""
     du = defuse(f)
-    ds = [s for s, whole in du.defs.get(l, []) if whole]
+    from cfg import whole_defs
+    ds = whole_defs(f, l)
     if len(ds) != 1 or depth > 6:
         return ("other", "multi-def")
     site = ds[0]
@@ -63,7 +64,8 @@ def _shallow_source(f, l, depth=0):
 def _root_local(f, l, depth=0):
     """The local a reference/copy chain starts from (`_p = move _t; _t = &(*_1)` -> _1)."""
     du = defuse(f)
-    ds = [s for s, whole in du.defs.get(l, []) if whole]
+    from cfg import whole_defs
+    ds = whole_defs(f, l)
     if len(ds) != 1 or depth > 8 or ds[0].is_term:
         return l
     rv = ds[0].node["rv"]
